@@ -33,6 +33,7 @@ type CacheScen struct {
 	Callback bool
 	// CBReenter: the evicted callback calls back into the cache (Get, Set of another key, Delete)
 	CBReenter bool
+	Payload   bool // values are *payload (race check)
 	Classes   int
 	CheckFn   bool
 	NoBlock   []bool
@@ -80,7 +81,7 @@ func (cs *CacheScen) setup(l *tledger) (CacheLike, CState) {
 	vtime.VEnable(epochNs)
 	lay := layoutFor(cs.Rel)
 	installCacheLayout(&lay)
-	cfg := CacheCfg{Twin: cs.Twin, HasIvl: true, Ivl: 0}
+	cfg := CacheCfg{Twin: cs.Twin, HasIvl: true, Ivl: 0, Payload: cs.Payload}
 	var c CacheLike
 	if cs.Callback {
 		cfg.Callback = func(k, v int) {
@@ -157,7 +158,7 @@ func (cs *CacheScen) Scenario() *Scenario {
 	trav := 0
 	for _, ops := range cs.Threads {
 		for _, o := range ops {
-			if o.Op == CDeleteExpired || o.Op == CRange {
+			if o.Op == CDeleteExpired || o.Op == CRange || o.Op == CItems {
 				trav++
 			}
 		}
@@ -167,6 +168,9 @@ func (cs *CacheScen) Scenario() *Scenario {
 	}
 	if trav >= 2 && cs.Bound == 0 {
 		cs.Bound = 2
+		if sched.RaceBuild {
+			cs.Bound = 1
+		}
 	}
 	sc := &Scenario{Name: name, Prop: cs.Prop, NoBlock: cs.NoBlock, MaxSteps: cs.MaxSteps, PreemptBound: cs.Bound, Classes: cs.Classes, ExpectOutcomes: cs.Expect}
 	var lc *linChecker
@@ -198,6 +202,19 @@ func (cs *CacheScen) Scenario() *Scenario {
 							return true
 						})
 						out = ro
+					case CSetCallback:
+						if in.CB == 0 {
+							c.SetEvictedCallback(nil)
+						} else {
+							c.SetEvictedCallback(func(k, v int) {
+								tt := sched.Running()
+								if tt < 0 {
+									tt = sched.MaxThreads
+								}
+								l.per[tt] = append(l.per[tt], fmt.Sprintf("cb%d:k%d=%d;", in.CB, k, v))
+							})
+						}
+						out = COut{}
 					default:
 						o := execCacheOp(c, in, nil, sched.Park)
 						o.Fired = l.take(t)
